@@ -340,6 +340,10 @@ func simC03Sets(c *Ctx) {
 		o.Long = []int{300, 600, 1100, 5000}[c.G(4)]
 		c.Probe("c03.long-twin-strings")
 	}
+	if c.G(8) == 0 {
+		o.LongColl = []int{33, 34, 40, 64, 100, 150}[c.G(6)]
+		c.Probe("c03.long-twin-collections")
+	}
 	n := 4 + c.G(20)
 	if c.G(6) == 0 {
 		// large sets: sorting and bucket code changes behaviour with size (library sorts switch algorithm
@@ -347,6 +351,9 @@ func simC03Sets(c *Ctx) {
 		n = 24 + c.G(30)
 		o.Unknown = true
 		c.Probe("c03.large-population")
+	}
+	if o.LongColl > 0 && n > 9 {
+		n = 9 // (cost: every member is rendered and hashed again and again)
 	}
 	for i := 0; i < n; i++ {
 		var d *VDesc
